@@ -19,7 +19,7 @@ import time
 
 from harness.corr import queue_common as qc
 
-PROPERTIES = ["C19", "C11", "C02"]
+PROPERTIES = ["C19", "C11", "C02", "C15"]
 ORDER = 40
 
 RESERVED = ("_doApply", "callback", "sync", "timeout")
